@@ -8,7 +8,7 @@ from vt.e1.values import (SIndexSet, SArr, SList, STT, SNum, SMaxRank, SInf, INF
                           as_conc, is_conc_int, val_ite)
 from vt.e1.symexec import FA, sym_elem_fn
 from vt.e1.contract import (Contract, wf, positive_dims, lists_distinct, cores_fresh, meta_fresh, same_ints, lst_get, mk_tt,
-                            mk_int_list, core_shape_ok, snapshot)
+                            mk_int_list, core_shape_ok, snapshot, valid)
 
 REG = {}
 
@@ -96,6 +96,11 @@ class Init(Contract):
         thr, mr = A.get('threshold', 0), A.get('max_rank', INF)
         plain = (is_conc_int(thr) and thr == 0) and isinstance(mr, SInf)
         t = build_tt_from_cores(state, x)
+        me = A.get('self')
+        if isinstance(me, STT) and not me.f:
+            # self.__init__(cores) inside the constructor: the fields of the object under construction are filled in
+            me.f = t.f
+            t = me
         if not plain:
             return REG['TT.ortho'].apply(ex, state, [t], {'threshold': thr, 'max_rank': mr}, line)
         return t
@@ -1864,3 +1869,98 @@ class Tensordot(Contract):
         return None
 
     loop_ordinals = {0: 'i in range(1, num_axes)'}
+
+
+@register
+class InitArray(Contract):
+    """TT(x) for a full array x with 2 * order axes (TT-SVD, C04): the result is a valid tensor train with the row / column
+    dimensions of x, boundary ranks 1 and no interior rank above max_rank - for every order, shape, threshold and cap."""
+    name, func = 'TT.__init__(array)', '__init__'
+    props = ('C04', 'C01', 'C06')
+    KEY = 'i in range(order - 1)'
+    loop_ordinals = {0: KEY}
+    var_kinds = {'y': 'array-any'}
+    list_kinds = {'cores': 'arr'}
+
+    def instances(self):
+        return [{'cap': c, 'thr': t} for c in ('inf', 'int') for t in ('zero', 'positive')]
+
+    def call_inst(self, A):
+        raise Unsupported('TT(<array>) is verified, not used at call sites')
+
+    def setup(self, ex, state, inst):
+        from vt.e1.values import SArrN
+        from vt.e1.calls import prod_fun
+        m0 = ex.ctx.mark0
+        order = fresh('order')
+        state.assume(order >= 1)
+        shape = mk_int_list(state, 'x_shape', 2 * order)
+        shape.split_points = []
+        P = prod_fun(shape)
+        x = SArrN(P(0, 2 * order), 2 * order, fresh('x_cx', 'bool'), fresh('x_buf'), shape)
+        # lemma L-prod-split (assumed, needs induction) and the products of the one-element slices the last core is built from
+        x.facts = lambda: [P(0, 2 * order) == P(0, order) * P(order, 2 * order),
+                           P(order - 1, order) == lst_get(shape, order - 1), P(2 * order - 1, 2 * order) == lst_get(shape, 2 * order - 1)]
+        for ax in x.facts():
+            state.assume(ax, model=True)
+        me = STT(fresh('self_ref'), None, None, None, None, None)
+        me.f = {}
+        mr = INF if inst['cap'] == 'inf' else fresh('max_rank')
+        thr = 0 if inst['thr'] == 'zero' else SNum('threshold', nonzero=z3.BoolVal(True), nonneg=z3.BoolVal(True))
+        return {'self': me, 'x': x, 'threshold': thr, 'max_rank': mr, 'progress': False, 'string': NONE}
+
+    def domain(self, S):
+        a = S.a
+        x = a['x']
+        yield 'alloc:self-is-new', a['self'].ref >= S.mark0
+        yield 'alloc:x', z3.And(x.buf >= 0, x.buf < S.mark0, x.shape.ref >= 0, x.shape.ref < S.mark0)
+        yield 'model:x', z3.And(x.ndim == zi(x.shape.len_term()), x.ndim >= 2, x.ndim % 2 == 0)
+        yield 'mode-sizes>=1', FA(0, x.ndim, lambda j: lst_get(x.shape, j) >= 1)
+        mr = a['max_rank']
+        if not isinstance(mr, SInf):
+            yield 'max_rank>=1', zi(mr) >= 1
+
+    def ensures(self, S, res):
+        me, x = S.a['self'], S.o['x']
+        ok = all(isinstance(me.f.get(k), SList) for k in ('row_dims', 'col_dims', 'ranks', 'cores'))
+        yield 'fields-set', ok
+        if not ok:
+            return
+        d = x.ndim / 2
+        yield 'order', zi(me.f['order']) == d
+        yield 'valid(self)', valid(me)
+        yield 'row_dims', FA(0, d, lambda j: lst_get(me.row_dims, j) == lst_get(x.shape, j))
+        yield 'col_dims', FA(0, d, lambda j: lst_get(me.col_dims, j) == lst_get(x.shape, d + j))
+        yield 'boundary-ranks-1', z3.And(lst_get(me.ranks, 0) == 1, lst_get(me.ranks, d) == 1)
+        yield 'interior-ranks<=max_rank', FA(1, d, lambda j: cap_ok(lst_get(me.ranks, j), S.o['max_rank']))
+        yield 'cores-fresh', z3.And(cores_fresh(me, S.mark0), me.cores.ref >= S.mark0, me.ranks.ref >= S.mark0, me.row_dims.ref >= S.mark0, me.col_dims.ref >= S.mark0)
+
+    def canary(self, S, res):
+        me = S.a['self']
+        return zi(me.f['order']) == 0 if 'order' in me.f else None
+
+    def invariant(self, key, inst):
+        if key != self.KEY:
+            return None
+
+        def inv(V, i, k):
+            from vt.e1.calls import prod_fun
+            from vt.e1.values import SArrN
+            x = V.old('x')
+            order = x.ndim / 2
+            P = prod_fun(x.shape)
+            ranks, cores, y = V['ranks'], V['cores'], V['y']
+            mr = V.old('max_rank')
+            yield 'ranks', z3.And(zi(ranks.len_term()) == order + 1, ranks.ref >= V.mark0, lst_get(ranks, 0) == 1,
+                                  FA(0, order + 1, lambda j: z3.And(lst_get(ranks, j) >= 1, z3.Implies(j > zi(i), lst_get(ranks, j) == 1),
+                                                                    z3.Implies(z3.And(j >= 1, j <= zi(i)), cap_ok(lst_get(ranks, j), mr)))))
+            yield 'cores', z3.And(zi(cores.len_term()) == zi(i), cores.ref >= V.mark0, cores.ref != ranks.ref, FA(0, zi(i), lambda j: z3.And(
+                core_shape_ok(lst_get(cores, j), lst_get(ranks, j), lst_get(x.shape, j), lst_get(x.shape, order + j), lst_get(ranks, j + 1)),
+                lst_get(cores, j).buf >= V.mark0)))
+            size = y.size if isinstance(y, SArrN) else None
+            if size is None and isinstance(y, SArr):
+                from vt.e1 import npmodel
+                size = npmodel.prod(y.shape)
+            yield 'remainder-size', size is not None and size == lst_get(ranks, zi(i)) * P(zi(i), order) * P(order + zi(i), 2 * order)
+            yield 'remainder-fresh', y.buf >= V.mark0
+        return inv
